@@ -354,3 +354,36 @@ def smt_check(ctx, name: str, assumptions, negated_property, variables, replay, 
         if other["result"] in ("sat", "unsat") and other["result"] != r:
             rec["result"] = r = "solver_disagreement"
     return r
+
+
+# ------------------------------------------------------------------------------------------------ process-fresh module state
+_MODULE_BASELINES: dict = {}
+
+
+def reset_module_containers(mod) -> None:
+    """Put every module-level mutable container (dict / set / list bound to a private lower- or upper-case name) of ``mod`` back to the content
+    it had when this helper first saw the module.  A scenario that is about 'two things happening in ONE process' has to start from a fresh
+    process image, but CrossHair explores all paths of an obligation in one interpreter: state a module memoises across calls would otherwise
+    leak from one explored path into the next and hide (or fake) order-dependent behaviour."""
+    import copy
+
+    key = mod.__name__
+    if key not in _MODULE_BASELINES:
+        _MODULE_BASELINES[key] = {n: copy.copy(v) for n, v in vars(mod).items()
+                                  if isinstance(v, (dict, set, list)) and not n.startswith("__")}
+    base = _MODULE_BASELINES[key]
+    for n, v in list(vars(mod).items()):
+        if isinstance(v, (dict, set, list)) and not n.startswith("__"):
+            if n in base:
+                want = base[n]
+                if isinstance(v, dict):
+                    v.clear()
+                    v.update(want)
+                elif isinstance(v, set):
+                    v.clear()
+                    v.update(want)
+                else:
+                    v[:] = want
+            else:
+                # a container that did not exist at baseline time (created lazily): empty it
+                v.clear()
